@@ -1040,6 +1040,11 @@ class Extractor:
                     val += 1
                 table[mm.group(1)] = val
             enums.append(table)
+        if a.get('all') == '1':
+            tabs = [t for t in enums if wanted[0] in t]
+            if len(tabs) != 1:
+                raise ExtractionError('enumerator %s found %d times in %s' % (wanted[0], len(tabs), a['file']))
+            wanted = list(tabs[0].keys())
         for w in wanted:
             hits = [t[w] for t in enums if w in t]
             if len(hits) != 1:
